@@ -283,6 +283,8 @@ def used_encoding(c, data, given, force):
 def css_text(rng):
     body = ''.join(rng.choice(['a', '{', '}', ' ', 'é', '€', '"', '@', 'x:y', '\n', '\U0001F600', 'ü', ';', '\x00',
                                '﻿', '￿']) for _ in range(rng.randint(0, 7)))
+    if rng.random() < 0.1:
+        body = body * rng.randint(2, 12)        # some long texts: first chunks beyond any small look-ahead
     r = rng.random()
     if r < 0.55:
         name = rng.choice(MODEL_NAMES + ['x', ''])
